@@ -280,7 +280,7 @@ public:
                              const std::array<RhsType*, NbRhsValuesPerParticle> /*particleRhsPtr*/){
             for(int idxValue = 0 ; idxValue < NbDataValuesPerParticle ; ++idxValue){
                 for(long int idxPart = 0 ; idxPart < leafHeader.nbParticles ; ++idxPart){
-                    data[idxValue][particleIndexes[idxPart]] = particleDataPtr[idxValue][idxPart];
+                    data[particleIndexes[idxPart]][idxValue] = particleDataPtr[idxValue][idxPart];
                 }
             }
         });
@@ -296,7 +296,7 @@ public:
                              const std::array<RhsType*, NbRhsValuesPerParticle> particleRhsPtr){
             for(int idxValue = 0 ; idxValue < NbRhsValuesPerParticle ; ++idxValue){
                 for(long int idxPart = 0 ; idxPart < leafHeader.nbParticles ; ++idxPart){
-                    rhs[idxValue][particleIndexes[idxPart]] = particleRhsPtr[idxValue][idxPart];
+                    rhs[particleIndexes[idxPart]][idxValue] = particleRhsPtr[idxValue][idxPart];
                 }
             }
         });
